@@ -136,10 +136,83 @@ func crashRandPlan(r *rand.Rand) spec.Plan {
 	return p
 }
 
+// crashBusyPlan: a failure becomes durable WHILE sequences of the block are executing (a continuous check of the
+// block or of the plan that fails at a later run, or a fast failing sequence next to slow ones with tolerance 0),
+// with deferred/post groups around. The durable states "failure recorded, siblings still Running" only exist in
+// such plans; the box and the random plans reach them rarely.
+func crashBusyPlan(r *rand.Rand) spec.Plan {
+	p := spec.Plan{Name: "p0"}
+	grp := func(ok bool) *spec.Checks {
+		return &spec.Checks{DelayUS: 300 + r.Intn(600), Actions: []spec.Action{{Steps: step(ok, r.Intn(400)), Retries: r.Intn(2)}}}
+	}
+	lateFail := func() *spec.Checks {
+		var st []plug.Step
+		for n := 1 + r.Intn(2); n > 0; n-- {
+			st = append(st, plug.Step{Out: plug.OK, SleepUS: 100 + r.Intn(400)})
+		}
+		st = append(st, plug.Step{Out: plug.Permanent, SleepUS: 100 + r.Intn(300)})
+		return &spec.Checks{DelayUS: 300 + r.Intn(500), Actions: []spec.Action{{Steps: st}}}
+	}
+	mode := r.Intn(3)
+	blk := spec.Block{Conc: 2 + r.Intn(2), Tol: 0}
+	nseq := 2 + r.Intn(2)
+	for si := 0; si < nseq; si++ {
+		var sq spec.Seq
+		for ai := 0; ai < 2; ai++ {
+			sq.Actions = append(sq.Actions, spec.Action{Steps: step(true, 900+r.Intn(1500)), Retries: r.Intn(3)})
+		}
+		blk.Seqs = append(blk.Seqs, sq)
+	}
+	switch mode {
+	case 0:
+		blk.Cont = lateFail()
+	case 1:
+		p.Cont = lateFail()
+	case 2:
+		blk.Seqs[r.Intn(nseq)].Actions[0] = spec.Action{Steps: step(false, 100+r.Intn(300))}
+		blk.Tol = r.Intn(2) * r.Intn(2) // mostly 0
+	}
+	if r.Intn(2) == 0 {
+		blk.Deferred = grp(r.Intn(4) != 0)
+	}
+	if r.Intn(3) == 0 {
+		blk.Post = grp(true)
+	}
+	if r.Intn(3) == 0 {
+		blk.Pre = grp(true)
+	}
+	if r.Intn(2) == 0 {
+		p.Deferred = grp(r.Intn(4) != 0)
+	}
+	if r.Intn(3) == 0 {
+		p.Pre = grp(true)
+	}
+	p.Blocks = append(p.Blocks, blk)
+	if r.Intn(2) == 0 {
+		p.Blocks = append(p.Blocks, spec.Block{Conc: 1, Tol: 0, Seqs: []spec.Seq{{Actions: []spec.Action{{Steps: step(true, 300)}}}}})
+	}
+	if r.Intn(3) == 0 { // the busy block second
+		p.Blocks[0], p.Blocks[len(p.Blocks)-1] = p.Blocks[len(p.Blocks)-1], p.Blocks[0]
+	}
+	p.AssignTags()
+	return p
+}
+
+// busyCases: how many of the replay cases (the last ones) use crashBusyPlan.
+func busyCases(tier string) int {
+	if tier == "thorough" {
+		return 120
+	}
+	return 4
+}
+
 // crashPlanOf maps a case index to a plan: quick samples the box by PRNG and adds random plans;
 // thorough enumerates the whole box and then random plans.
 func crashPlanOf(prop string, seed int, tier string, idx int) (spec.Plan, string) {
 	r := gen.Rand(seed, "crash", idx) // same plans for C09 and C10
+	if idx >= replayCases(tier)-busyCases(tier) {
+		return crashBusyPlan(r), "failure while sequences are executing"
+	}
 	if tier == "thorough" {
 		if idx < crashBox {
 			return crashBoxPlan(idx), "box"
@@ -681,9 +754,9 @@ func c10Run(c *Ctx, idx int) CaseResult {
 // replay cases first, then real-kill cases
 func replayCases(tier string) int {
 	if tier == "thorough" {
-		return crashBox + 300
+		return crashBox + 300 + busyCases(tier)
 	}
-	return 18
+	return 18 + busyCases(tier)
 }
 
 func killCases(tier string) int {
@@ -710,7 +783,7 @@ func secondOneIn(tier string) int {
 }
 
 func init() {
-	crashRule := "case i = one plan and EVERY prefix k of its committed write sequence (captured with sqlite.WithCapture during an uninterrupted run, replayed into a fresh in-memory store, then a normal Workstream recovers); for a PRNG share of the crash points (quick 1/5, thorough 1/2) the writes of the recovery run are stepped through one by one and a second recovery is run from every durable state not seen before for that plan (second crash); quick: 12 PRNG samples of the bounded box + 6 random plans; thorough: the whole box (1272 shapes blocks<=2 x sequences<=2 x actions<=2 x outcome masks x tolerance{0,1} x concurrency{1,2}, plus 486 = every subset x pass/fail of the five check groups at plan and block level) + 300 random plans; plugin outcomes are a function of the action alone; cross-validation of the crash model by real kills (quick 8, thorough 200 cases): a process running a random plan on a FILE-backed store SIGKILLs itself immediately before/after its PRNG-chosen k-th write, a second process opens the directory, snapshots, recovers and reports, same oracles; distinct by plan spec"
+	crashRule := "case i = one plan and EVERY prefix k of its committed write sequence (captured with sqlite.WithCapture during an uninterrupted run, replayed into a fresh in-memory store, then a normal Workstream recovers); for a PRNG share of the crash points (quick 1/5, thorough 1/2) the writes of the recovery run are stepped through one by one and a second recovery is run from every durable state not seen before for that plan (second crash); quick: 12 PRNG samples of the bounded box + 6 random plans + 4 plans in which a failure (late continuous-check failure of the block or the plan, fast failing sequence) becomes durable while sibling sequences are executing (thorough: 120 of those); thorough: the whole box (1272 shapes blocks<=2 x sequences<=2 x actions<=2 x outcome masks x tolerance{0,1} x concurrency{1,2}, plus 486 = every subset x pass/fail of the five check groups at plan and block level) + 300 random plans; plugin outcomes are a function of the action alone; cross-validation of the crash model by real kills (quick 8, thorough 200 cases): a process running a random plan on a FILE-backed store SIGKILLs itself immediately before/after its PRNG-chosen k-th write, a second process opens the directory, snapshots, recovers and reports, same oracles; distinct by plan spec"
 	register(&Prop{
 		ID: "C09", Level: "fault_enumeration", Batch: 1, PerCaseTimeout: 1200 * time.Second,
 		Rule: crashRule + "; non-trivial = the plan has at least one crash point with a durable action result", Cases: crashCases,
